@@ -8,7 +8,7 @@ import sys
 sys.path.insert(0, os.path.dirname(os.path.dirname(os.path.abspath(__file__))))
 from vlib import core                      # noqa: E402
 from vlib.props import c15                 # noqa: E402
-from vlib.props.c15 import H, D, RST, GOAWAY, REQ, RESP, PREFACE   # noqa: E402
+from vlib.props.c15 import H, D, RST, GOAWAY, SETTINGS, REQ, RESP, PREFACE   # noqa: E402
 
 P = c15.PROP
 REQF = [(":method", "POST"), (":scheme", "http"), (":authority", "h"), (":path", "/s.S/M"), ("content-type", "application/grpc")]
@@ -46,6 +46,14 @@ CASES = {
         (RESP, H, 3, 0, RESPF, 0, -1, 0), (RESP, H, 3, 1, TRAIL, 0, -1, 0)], [[2, 0]]),
     "refused-not-retried": ("REFUSED_STREAM without a retry: the refused attempt's trace when the timer fires", 0, [
         (REQ, H, 1, 1, REQF + [NAME], 0, -1, 0), (RESP, RST, 1, 7), (REQ, c15.TIMESUP, "Suite/a/x")], []),
+    "table-size-raised": ("the server announces SETTINGS_HEADER_TABLE_SIZE 8192, the client's encoder adopts it: its next header block opens with "
+                          "a dynamic table size update above 4096 (seeded C15-15: decoders limited to 4096 gave the direction up)", 1, [
+        (RESP, SETTINGS, 0, (1, 8192)), (REQ, SETTINGS, 1),
+        (REQ, H, 1, 1, REQF + [NAME], 0, -1, 0), (RESP, H, 1, 0, RESPF, 0, -1, 0), (RESP, H, 1, 1, TRAIL, 0, -1, 0)], [[2, 0]]),
+    "table-size-raised-by-client": ("the client announces SETTINGS_HEADER_TABLE_SIZE 65536: the response header block opens with the size update "
+                                    "(client conn; seeded C15-15)", 0, [
+        (REQ, SETTINGS, 0, (1, 65536)), (RESP, SETTINGS, 1),
+        (REQ, H, 1, 1, REQF + [NAME], 0, -1, 0), (RESP, H, 1, 0, RESPF, 0, -1, 0), (RESP, H, 1, 1, TRAIL, 0, -1, 0)], [[2, 0]]),
 }
 
 items = [(PREFACE, frames) for (_, _, frames, _) in CASES.values()]
@@ -53,6 +61,22 @@ synth = P._synth(items)
 rng = random.Random(0)
 for (fname, (what, side, frames, tail)), (reqb, respb, reqt, respt, lens) in zip(CASES.items(), synth):
     ops = c15.build_ops(rng, side, len(PREFACE), frames, lens, "frame", tail)
+    case = P._case("c15.conn", side, reqb, respb, reqt, respt, ops)
+    with open(os.path.join(core.VERIF, "corpus", "C15", fname + ".case"), "w") as f:
+        f.write("; C15: %s\n; (regenerate with tools/c15_mkcorpus.py)\n%s\n" % (what, core.sx([case[0], 0] + case[1:])))
+    print("wrote", fname)
+
+# dynamic table size updates written by hand (not obtainable from hpack.Encoder): the largest a SETTINGS value can
+# announce (2^32-1: accepted), and 2^32 (cannot be announced: a decoding error, the direction is given up)
+rng = random.Random(1)
+for fname, what, side, (uq, up, ut) in (
+        ("table-size-update-max", "a request block opening with a dynamic table size update to 2^32-1 (legal after SETTINGS_HEADER_TABLE_SIZE "
+         "2^32-1): traced", 1, ([(1 << 32) - 1], [], [])),
+        ("table-size-update-max-trailers", "trailers opening with the size updates 0 and 2^32-1 (client conn): traced", 0, ([], [], [0, (1 << 32) - 1])),
+        ("table-size-update-too-large", "a response block opening with a size update to 2^32, which no SETTINGS value can announce: the "
+         "direction is given up, nothing else happens", 0, ([], [1 << 32], []))):
+    frames, reqb, respb, reqt, respt, lens = c15.update_case("Suite/cfg/" + fname, uq, up, ut)
+    ops = c15.build_ops(rng, side, len(PREFACE), frames, lens, "frame", [[2, 0]])
     case = P._case("c15.conn", side, reqb, respb, reqt, respt, ops)
     with open(os.path.join(core.VERIF, "corpus", "C15", fname + ".case"), "w") as f:
         f.write("; C15: %s\n; (regenerate with tools/c15_mkcorpus.py)\n%s\n" % (what, core.sx([case[0], 0] + case[1:])))
